@@ -1146,7 +1146,54 @@ pub fn run(tier: &str) -> i32 {
   let space3 = format!("{} set-ups x {} word targets (both sides of every boundary address, every address at the end{} of a {}) x {} values x {{memory_write_word, memory_push_word}}: state after the helper against the state after the two byte stores (all 65536 addresses read, every backing array digested); memory_read_word against two byte reads at all 65536 addresses", n_act, nt, if thorough { " or start" } else { "" }, if thorough { "16-byte line" } else { "256-byte page" }, wvalues.len());
   let c3 = rep.add_stage("word-accesses", &space3, r3);
 
-  let sum = |i: usize| c1[i] + c2[i] + c3[i];
+  // ------------------------------------------------------------ cartridge RAM smaller than its window
+  // A 2 KiB chip (header RAM code 01) mirrors inside 0xA000-0xBFFF, so "changes what is read at
+  // no other address" cannot be asked of it and R2 leaves it unjudged; the other half of the
+  // sentence can be asked: a byte written with the RAM gate open is returned by the next read
+  // of that address.  Every address of the window, two values, every controller with RAM.
+  let small_types: [u8; 4] = [0x02, 0x03, 0x12, 0x13];
+  let r4: PoolResult = run_pool(
+    (small_types.len() * 2) as u64,
+    &PoolOpts { chunk: 1, bitmap_bits: 1024, samples_per_child: 0, ..PoolOpts::default() },
+    |_| (),
+    |_, case, ctx| {
+      let ty = small_types[(case / 2) as usize];
+      let rom_code = (case % 2) as u8;
+      let header = crate::world::header_bytes(ty, rom_code, 0x01);
+      let path = crate::world::write_sparse_rom_file((2u64 << rom_code) * 0x4000, &[(0x100, &header[0x100..0x150])]);
+      let loaded = crate::world::load_like_main(&path);
+      let _ = std::fs::remove_file(&path);
+      let mut core = match loaded {
+        Ok(c) => c,
+        Err(e) => {
+          ctx.violation(&format!("C10 write=cartram-2K setup-refused type={:02X}", ty), || J::obj().set("case", J::obj().set("cart_type", J::u(ty as u64)).set("rom_code", J::u(rom_code as u64)).set("error", J::s(e.as_str()))));
+          return;
+        },
+      };
+      let m = mp(&mut core);
+      memory_write_byte(m, 0x0000, 0x0A);
+      for round in 0..2u16 {
+        for a in 0xA000u16..=0xBFFF {
+          let v = ((a as u8) ^ ((a >> 8) as u8).wrapping_mul(5) ^ 0x5A) ^ if round == 1 { 0xFF } else { 0 };
+          memory_write_byte(m, a, v);
+          let got = memory_read_byte(m as *const MemoryAreas, a);
+          ctx.count(C_WRITES, 1);
+          ctx.count(C_PROBES, 1);
+          if got != v {
+            ctx.violation("C10 write=cartram-2K probe=same-address kind=not-stored", || {
+              J::obj().set("case", J::obj().set("cart_type", J::s(format!("{:02X}", ty))).set("rom_code", J::u(rom_code as u64)).set("ram_code", J::u(1)).set("address", J::s(format!("{:04X}", a))).set("written", J::s(format!("{:02X}", v))).set("read_back", J::s(format!("{:02X}", got))).set("what", J::s("0x0A written to 0x0000 (RAM gate open), then the byte written to the address and the address read")))
+            });
+            return;
+          }
+        }
+      }
+      ctx.class(0x7000 | case);
+    },
+    |case, how| (format!("C10 cartram-2K crash={}", how), J::obj().set("case", J::obj().set("small_ram_case", J::u(case)))),
+  );
+  let c4 = rep.add_stage("cart-ram-2K-write-then-read", "cartridge types 02, 03, 12, 13 x ROM size codes 00, 01 with RAM size code 01 (2 KiB), loaded from a file, RAM gate opened; every address 0xA000-0xBFFF x 2 values written and read back at the same address", r4);
+
+  let sum = |i: usize| c1[i] + c2[i] + c3[i] + c4[i];
   rep.evaluations = sum(C_PROBES);
   rep.cov("write_probe_pairs_compared", J::u(sum(C_PROBES)));
   rep.cov("writes_executed_and_probed", J::u(sum(C_WRITES)));
